@@ -1024,6 +1024,8 @@ def check_C06(v, tier, seed):
         masks = [0, 4095, 4087, 1365, 2730]
     # procfs symlinks (net, self, thread-self) replaced by links into another process, one at a time
     masks += [4096, 8192, 16384]
+    # a FIFO nobody writes to over a procfs file: the lookups are repeated with blocking flags and timed
+    masks += [32768]
     runs = [Run("C06-overmount", ["proc-overmount", "--masks", ",".join(str(m) for m in masks)])]
     # with the over-mounts in place, every mount-id / fs-type probe of a lookup fails in turn with ENOSYS, EINVAL
     # ("cannot tell") and EACCES: the verification has to fail closed, the over-mounted object is never returned
@@ -1069,7 +1071,14 @@ def check_C06(v, tier, seed):
                 stats["visible_overmounted_lookups"] += 1
                 if c.res[:3] == ["err", "OsError", "18"]:
                     stats["exdev"] += 1
-            if d is not None:
+            el = (c.extra.get("elapsed") or [None])[0]
+            if el and int(el[0]) > 1500:
+                stats["blocked_lookups"] = stats.get("blocked_lookups", 0) + 1
+                msg = (f"a lookup of an entry that is over-mounted with a FIFO blocked for {el[0]} ms: what is mounted there was "
+                       "opened for I/O before the mount was looked at (whoever made the mount decides if and when the call returns)")
+            elif el:
+                stats["timed_lookups_on_fifo_overmount"] = stats.get("timed_lookups_on_fifo_overmount", 0) + 1
+            if msg is None and d is not None:
                 ident = f"{d.get('dev')}:{d.get('ino')}"
                 if ident in overs:
                     msg = f"the over-mounted object {ident} was returned"
